@@ -1188,7 +1188,8 @@ fn c21_scan_delegation_own_ns() {
 
 static H_NSD_GLUE_NSZ_GLUE: [(usize, bool); 4] = [(N_NSD, false), (N_NSD, true), (N_NSZ, false), (N_NSZ, true)];
 
-// @harness props=C21 tier=quick mem=6 t=3600 cbmc="--max-field-sensitivity-array-size 256"
+// THOROUGH ONLY, not completed: 1413 loop unwindings in 50 min of symbolic execution (machine load 30-40) when stopped.
+// @harness props=C21 tier=thorough mem=10 t=14400 cbmc="--max-field-sensitivity-array-size 256"
 //   fn="validation::scan_node,check_delegation_ns_address,check_glue"
 //   bound="scan_node on node d. {NS ns.d., NS ns.}; ns.d. is below the cut d. and has no glue (always MissingGlue in IN/CH); plain lookup of ns.: each of the 5 kinds in turn (a referral names the SIBLING e., whose glue lookup fails); class, policy symbolic; up to two named issues; unwind 4"
 //   sym="class, policy, A/AAAA presence" stubs="S1,M1"
@@ -1302,7 +1303,8 @@ static NODES_TWO_MX: [NodeV; 2] = [NodeV { owner: N_APEX, sets: &S_MX_MX }, Node
 static H_NSZ_NSZ: [(usize, bool); 2] = [(N_NSZ, false), (N_NSZ, false)];
 static H_MX_MX: [(usize, bool); 2] = [(N_MX, false), (N_MX, false)];
 
-// @harness props=C21 tier=quick mem=6 t=3600 cbmc="--max-field-sensitivity-array-size 256"
+// THOROUGH ONLY, not completed: 2285 loop unwindings in 50 min of symbolic execution (machine load 30-40) when stopped; its parts (a) and (b) are the quick harnesses c21_scan_ns_and_cnames / c21_scan_same_issue_once.
+// @harness props=C21 tier=thorough mem=10 t=14400 cbmc="--max-field-sensitivity-array-size 256"
 //   fn="validation::scan_node,check_delegation_ns_address,check_glue,check_mx_address,ValidationIssue::is_error"
 //   bound="concrete zones, class IN/CH and glue policy symbolic: (a) node d. {NS ns.d. below the cut without glue, CNAME x2}: MissingGlue + DuplicateCname + OtherRecordsAtCname; (b) nodes d. {NS ns.} and e. {NS ns.} with ns. non-existent: ONE MissingNsAddress; (c) nodes . {MX mx.} and h. {MX mx.} with mx. non-existent: ONE MissingMxAddress; the five CNAME shapes of c21_cname_nodes again; unwind 5"
 //   sym="class in {IN, CH}, policy" stubs="S1,M1"
@@ -1334,4 +1336,33 @@ fn c21_scan_several_issues() {
     kani::cover!(c2.has(K_DUP_CNAME, N_H) && !c2.has(K_CNAME_OTHER, N_H), "duplicate CNAME only");
     kani::cover!(c3.has(K_CNAME_OTHER, N_H) && !c3.has(K_DUP_CNAME, N_H), "CNAME and other data only");
     kani::cover!(c4.has(K_CNAME_OTHER, N_H) && c4.has(K_DUP_CNAME, N_H), "both CNAME issues");
+}
+
+// @harness props=C21 tier=quick mem=6 t=3600 cbmc="--max-field-sensitivity-array-size 256"
+//   fn="validation::scan_node,check_delegation_ns_address,check_glue,ValidationIssue::is_error"
+//   bound="scan_node on node d. {NS ns.d. below the cut without glue, CNAME x2} (concrete): exactly MissingGlue(ns.d.) + DuplicateCname(d.) + OtherRecordsAtCname(d.); class IN, glue policy symbolic; unwind 5"
+//   sym="policy" stubs="S1,M1"
+#[kani::proof]
+#[kani::unwind(5)]
+fn c21_scan_ns_and_cnames() {
+    let (policy, wide) = any_policy();
+    let mut f = quiet_apex(Class::IN, 1, policy, wide, &NODES_D_NS_CNAME2, &H_NSD_GLUE);
+    f.table[N_NSD][0] = Ans::Referral { child: N_D };
+    f.table[N_NSD][1] = Ans::Cname;
+    let e = run_scan(&f, 3);
+    kani::cover!(e.has(K_GLUE, N_NSD) && e.has(K_DUP_CNAME, N_D) && e.has(K_CNAME_OTHER, N_D), "three issues from one node");
+}
+
+// @harness props=C21 tier=quick mem=6 t=3600 cbmc="--max-field-sensitivity-array-size 256"
+//   fn="validation::scan_node,check_delegation_ns_address"
+//   bound="scan_node on nodes d. {NS ns.} and e. {NS ns.} into one issue set, ns. non-existent (concrete): the issue arises twice and is reported once; class IN, glue policy symbolic; unwind 4"
+//   sym="policy" stubs="S1,M1"
+#[kani::proof]
+#[kani::unwind(4)]
+fn c21_scan_same_issue_once() {
+    let (policy, wide) = any_policy();
+    let mut g = quiet_apex(Class::IN, 1, policy, wide, &NODES_TWO_NS_NSZ, &H_NSZ_NSZ);
+    g.table[N_NSZ][0] = Ans::NxDomain;
+    let e2 = run_scan(&g, 1);
+    kani::cover!(e2.has(K_NS_ADDR, N_NSZ), "one issue from two delegations");
 }
